@@ -8,7 +8,9 @@ for d in seeded/*/; do
   [ -n "${ONLY:-}" ] && [ "$n" != "$ONLY" ] && continue
   ids=$(cat $d/checks.txt)
   echo "=== $n: $ids"
-  out=$(MUT=/tmp/mutm tools/mutate.sh $d/patch.diff $ids 2>&1)
+  tier=quick; [ -f $d/tier.txt ] && tier=$(cat $d/tier.txt)
+  [ -n "${SKIP_DONE:-}" ] && [ -f $d/detect.json ] && [ $d/detect.json -nt $d/checks.txt ] && continue
+  out=$(TIER=$tier MUT=/tmp/mutm tools/mutate.sh $d/patch.diff $ids 2>&1)
   echo "$out" | python3 -c "
 import sys,json,re
 res={}; cur=None
